@@ -82,6 +82,9 @@ def run(ctx):
             if rep.get("watcher_threads_left", 0) > 0:
                 ctx.violation(f"C15/watchers-left:{kind}", f"{rep['watcher_threads_left']} file-watcher thread(s) of dropped caches still exist after further "
                               "file events under the root", dict(kind=kind, seed=sd))
+            if rep.get("watcher_threads_dotted", 0) > 0:
+                ctx.violation(f"C15/watchers-left-dotted:{kind}", f"{rep['watcher_threads_dotted']} file-watcher thread(s) of dropped caches survive modifications "
+                              "of entries that have no asset id (dotted names)", dict(kind=kind, seed=sd))
             last = rep["rounds"][-1]
             if last["threads_1s"] > 1:
                 ctx.violation(f"C15/accumulate:{kind}", f"{last['threads_1s']} reloader threads exist after {rounds} create/drop rounds",
